@@ -117,6 +117,8 @@ def gen_derived(rng):
         x = rng.random()
         if x < 0.4: ops.append("F %d %d" % (rng.randrange(n), rng.randrange(n)))
         elif x < 0.55: ops.append("G %d %d" % (rng.randrange(2 * n), rng.randrange(2 * n)))
+        elif x < 0.68:      # sub-row of the 2x2 block matrix: inside one block, straddling both, empty
+            a = rng.randint(0, 2 * n); ops.append("V %d %d %d" % (rng.randrange(2 * n), a, rng.randint(a, 2 * n)))
         elif x < 0.75:
             a = rng.randint(0, n); ops.append("Q %d %d %d" % (rng.randrange(n), a, rng.randint(a, n)))
         else: ops.append("W %d %d" % (rng.randrange(n), rng.randint(1, n)))
@@ -136,6 +138,13 @@ def monitor_derived(impl_case, out, info):
         if t[0] == "F": i, j = int(t[1]), int(t[2]); pos[i], pos[j] = pos[j], pos[i]
         if t[0] == "G": i, j = int(t[1]), int(t[2]); bpos[i], bpos[j] = bpos[j], bpos[i]
         d = parse_state(o.split())
+        if t[0] == "V":
+            kk, a, b = int(t[1]), int(t[2]), int(t[3])
+            if "!OOB" in o: return ["line %d `%s`: BlockMatrix2x2::row wrote outside the caller's buffer" % (idx, l)]
+            w = [k(bpos[kk], bpos[j]) for j in range(a, b)]
+            got = [int(x) for x in d.get("ret", "").split(",")] if d.get("ret") else []
+            if got != w: return ["line %d `%s`: BlockMatrix2x2::row returns %s, direct evaluation under the current order gives %s" % (idx, l, got, w)]
+            continue
         if t[0] in ("Q", "W"):
             kk = int(t[1]); a, b = (int(t[2]), int(t[3])) if t[0] == "Q" else (0, int(t[2]))
             if "!OOB" in o: return ["line %d `%s`: RegularizedKernelMatrix::row wrote outside the caller's buffer" % (idx, l)]
